@@ -635,6 +635,18 @@ func DirectUsersetAndComputedSameRelation(m *rm.Model, typ, rel string) bool {
 			}
 		}
 		walk(r.Rewrite)
+		// computed usersets that are pure aliases (y: x) count as the relation they alias
+		for y := range computed {
+			cur := y
+			for i := 0; i < 8; i++ {
+				ry := m.Rel(n.t, cur)
+				if ry == nil || ry.Rewrite.Kind != rm.Computed {
+					break
+				}
+				cur = ry.Rewrite.Relation
+				computed[cur] = true
+			}
+		}
 		for _, res := range r.Restrictions {
 			if res.Relation != "" {
 				stack = append(stack, node{res.Type, res.Relation})
